@@ -49,6 +49,8 @@ def branch_alphabet(tier):
     out.append(A.gate("I_X", q(0)))
     out.append(A.gate("N1", q(2)))
     out.append(A.seq(A.gate("X", q(0)), A.gate("H", q(1))))
+    # busy gates inside a branch: they use every qubit, so any non-idle neighbour overlaps
+    out.append(A.seq(A.gate("X", q(1)), A.gate("measure_all"), A.gate("prepare_all"), A.gate("X", q(1))))
     if tier != "quick":
         out.append(A.gate("CX", q(1), q(2)))
         out.append(A.gate("A3", q(2), q(0), q(1)))
@@ -139,8 +141,8 @@ class C13(ProgramCheck):
 
     def specs(self, tier):
         if tier == "quick":
-            return [dict(max_nodes=3, leaves=U.LEAVES[:8:1] + U.LEAVES[8:])]
-        return [dict(max_nodes=3, leaves=U.LEAVES), dict(max_nodes=4, min_nodes=4, leaves=U.LEAVES[3:8])]
+            return [dict(max_nodes=3, leaves=U.LEAVES + (A.gate("m6", 0),))]
+        return [dict(max_nodes=3, leaves=U.LEAVES + (A.gate("m6", 0),)), dict(max_nodes=4, min_nodes=4, leaves=U.LEAVES[3:8])]
 
     def nbhd_k(self, tier):
         return 1 if tier == "quick" else 2
@@ -268,6 +270,11 @@ class C13(ProgramCheck):
 
     def run_par(self, case, ctx):
         _, branches, place = case
+        busy = any(n[0] == "gate" and n[1] in ("measure_all", "prepare_all") for b in branches for n in A.walk(b))
+        if busy and (place != "section" or sum(1 for b in branches for n in A.walk(b) if n[0] == "gate" and n[1] == "measure_all") > 1):
+            # elsewhere a measure_all inside the block is (also) rejected by the bracketing rules of C12
+            ctx.outcome("skipped-busy-placement")
+            return
         p = par_program(branches, place)
         text = render.text(p)
         model = Model(p, NATIVES)
@@ -307,6 +314,8 @@ class C13(ProgramCheck):
             ctx.outcome("rejected-overlap")
             return
         ctx.outcome("ran")
+        if busy:
+            return  # two subcircuits: the state comparison below is for single sections
         want = model_state(norm_top((d,)))
         got = r.subcircuits[0].state_vector
         ctx.state(sim.key(want))
